@@ -1060,7 +1060,7 @@ func ruleAcceptedLinkIsCreated(id string) func(*Checker) {
 // ruleURLHostUntouched — the host of a package URL is never rewritten.
 func ruleURLHostUntouched(id string) func(*Checker) {
 	return func(c *Checker) {
-		c.rule(id, "No function of the address package stores into the Host field of a url.URL anything but that same field's value case-folded: a host rebuilt from Hostname() and Port() loses the brackets of an IPv6 literal, and the address then prints to a string that no longer parses.", 0)
+		c.rule(id, "No function of the address package stores into the Host field of a url.URL anything but that same field's value case-folded, and that only in what MakeRemoteSource reaches too (the constructor all routes share): a host rebuilt from Hostname() and Port() loses the brackets of an IPv6 literal, and the address then prints to a string that no longer parses.", 0)
 		c.absence(id)
 		p := c.P
 		n := 0
@@ -1081,7 +1081,11 @@ func ruleURLHostUntouched(id string) func(*Checker) {
 				okv := false
 				if cl, ok := canon(st.Val).(*ssa.Call); ok && (isFunc(calleeObj(cl), "strings", "ToLower")) {
 					if g := loadedField(cl.Call.Args[0]); g != nil && g == fieldOf(fa) {
-						okv = true
+						// … and then on every route that makes an address (a fold on the parsing route only leaves
+						// MakeRemoteSource values printing to something that parses to another value)
+						if mk := p.Fn(addrPkg, "MakeRemoteSource"); mk != nil && p.reach(mk)[fn] {
+							okv = true
+						}
 					}
 				}
 				c.check(okv, id, p.FuncName(fn), "URL host rewritten", p.Pos(st.Pos()), "u.Host = strings.ToLower(u.Host)", "the Host of a package URL is overwritten with something other than its own case-folded value (Hostname() drops the brackets of an IPv6 literal; a port removed or added changes which package it is): the address no longer prints to what it was parsed from")
@@ -2314,5 +2318,44 @@ func ruleTypePrefixAfterSplit(id string) func(*Checker) {
 			}
 		}
 		c.check(n > 0, id, p.FuncName(parse), "type pattern applied", p.Pos(parse.Pos()), fmt.Sprintf("%d match(es)", n), "the remote-source parser no longer applies a type-prefix pattern")
+	}
+}
+
+// ---- round 13 ----
+
+// ruleWrapKeepsChain — an error handed on inside a new message keeps its chain.
+func ruleWrapKeepsChain(id string, pkgs ...string) func(*Checker) {
+	return func(c *Checker) {
+		c.rule(id, "Where module code on the way of Pack and Unpack builds an error with fmt.Errorf around an error value (an argument of error type), the verb that takes that argument is %w: with %v or %s the text is kept and the chain is cut, and what was an *IllegalSlugError below — a refusal from a nested walk, the link validator, the entry constructor — reaches the caller as a plain error that errors.As no longer recognises. Counted per call: as many %w as error arguments.", 5)
+		p := c.P
+		inScope := map[string]bool{}
+		for _, n := range pkgs {
+			inScope[p.PkgPath(n)] = true
+		}
+		for _, fn := range p.Funcs {
+			if !p.InModule(fn) || !inScope[pkgPathOf(p, fn)] {
+				continue
+			}
+			for _, ci := range callsIn(fn) {
+				cl, ok := ci.(*ssa.Call)
+				if !ok || !isFunc(calleeObj(cl), "fmt", "Errorf") {
+					continue
+				}
+				nerr := len(errorArgsOfFresh(cl))
+				if nerr == 0 {
+					continue
+				}
+				format, isC := constString(cl.Call.Args[0])
+				if !isC {
+					continue
+				}
+				nw := strings.Count(format, "%w") + strings.Count(format, "%#w") + strings.Count(format, "%+w")
+				what := format
+				if len(what) > 30 {
+					what = what[:30]
+				}
+				c.check(nw >= nerr, id, p.FuncName(fn), "error wrapped with %w in "+strconv.Quote(what), p.Pos(cl.Pos()), fmt.Sprintf("%d error argument(s), %d %%w", nerr, nw), "an error value is formatted into a new error with a verb other than %w: the message survives, the chain does not — an IllegalSlugError from below is no longer recognisable to the caller")
+			}
+		}
 	}
 }
